@@ -443,6 +443,8 @@ where
     /// use of an inappropriate API.
     pub fn try_send(&self, value: T) -> Result<(), TrySendError<T>> {
         let result = { self.inner.lock().try_send(value) };
+        #[cfg(futures_intrusive_verif)]
+        crate::verif::point(3);
 
         match result {
             Ok(Some(waker)) => {
@@ -467,6 +469,8 @@ where
     /// Attempt to receive a value of the channel without waiting.
     pub fn try_receive(&self) -> Result<T, TryReceiveError> {
         let result = { self.inner.lock().try_receive() };
+        #[cfg(futures_intrusive_verif)]
+        crate::verif::point(4);
 
         match result {
             Ok((val, waker)) => {
@@ -511,6 +515,8 @@ where
     ) -> (Poll<()>, Option<T>) {
         let (poll_result, value, waker) =
             { self.inner.lock().send_or_register(wait_node, cx) };
+        #[cfg(futures_intrusive_verif)]
+        crate::verif::point(5);
 
         if let Some(waker) = waker {
             waker.wake();
@@ -538,6 +544,8 @@ where
         cx: &mut Context<'_>,
     ) -> Poll<Option<T>> {
         let result = { self.inner.lock().receive_or_register(wait_node, cx) };
+        #[cfg(futures_intrusive_verif)]
+        crate::verif::point(6);
 
         match result {
             Poll::Ready(Some((val, waker))) => {
@@ -556,6 +564,8 @@ where
         wait_node: &mut ListNode<RecvWaitQueueEntry>,
     ) {
         let waker = { self.inner.lock().remove_receive_waiter(wait_node) };
+        #[cfg(futures_intrusive_verif)]
+        crate::verif::point(7);
 
         if let Some(waker) = waker {
             waker.wake();
@@ -637,6 +647,60 @@ where
 {
     fn is_terminated(&self) -> bool {
         self.channel.is_none()
+    }
+}
+
+#[cfg(futures_intrusive_verif)]
+impl<MutexType: RawMutex, T, A> GenericChannel<MutexType, T, A>
+where
+    A: RingBuf<Item = T>,
+{
+    /// Reports the internal state while holding the internal lock.
+    /// Queue 0 are the receive waiters, queue 1 the send waiters.
+    pub fn verif_inspect(
+        &self,
+        visit: &mut dyn FnMut(crate::verif::Visit) -> bool,
+    ) {
+        use crate::verif::{PrimInfo, Visit};
+        let state = self.inner.lock();
+        let (head, tail) = state.receive_waiters.verif_ends();
+        let (head2, tail2) = state.send_waiters.verif_ends();
+        visit(Visit::Prim(PrimInfo {
+            head,
+            tail,
+            head2,
+            tail2,
+            flag: state.is_closed,
+            fair: false,
+            count: state.buffer.len() as u64,
+            cap: state.buffer.capacity() as u64,
+        }));
+        crate::verif::walk_list(
+            &state.receive_waiters,
+            0,
+            visit,
+            &super::channel_future::verif_recv_node_info,
+        );
+        crate::verif::walk_list(
+            &state.send_waiters,
+            1,
+            visit,
+            &super::channel_future::verif_send_node_info,
+        );
+        visit(Visit::Done);
+    }
+}
+
+#[cfg(futures_intrusive_verif)]
+impl<'a, MutexType: RawMutex, T, A> ChannelStream<'a, MutexType, T, A>
+where
+    A: RingBuf<Item = T>,
+{
+    /// The receive future which is currently stored inside the stream
+    pub fn verif_future(
+        &self,
+    ) -> Option<&ChannelReceiveFuture<'a, MutexType, T>> {
+        self.future.as_ref()
     }
 }
 
@@ -825,6 +889,8 @@ mod if_alloc {
                     return;
                 }
                 core::sync::atomic::fence(Ordering::Acquire);
+                #[cfg(futures_intrusive_verif)]
+                crate::verif::point(8);
                 // Close the channel, before last sender gets destroyed
                 // TODO: We could potentially avoid this, if no receiver is left
                 self.inner.channel.close();
@@ -858,9 +924,13 @@ mod if_alloc {
                     return;
                 }
                 core::sync::atomic::fence(Ordering::Acquire);
+                #[cfg(futures_intrusive_verif)]
+                crate::verif::point(9);
                 // Close the channel, before last receiver gets destroyed
                 // TODO: We could potentially avoid this, if no sender is left
                 self.inner.channel.close();
+                #[cfg(futures_intrusive_verif)]
+                crate::verif::point(10);
 
                 // Now drop the content of the channel. This ensures that
                 // the content of the channel is dropped even if a sender is held.
@@ -1067,6 +1137,49 @@ mod if_alloc {
         {
             fn is_terminated(&self) -> bool {
                 self.is_terminated
+            }
+        }
+
+        #[cfg(futures_intrusive_verif)]
+        impl<MutexType, T, A> GenericSender<MutexType, T, A>
+        where
+            MutexType: RawMutex,
+            A: RingBuf<Item = T>,
+        {
+            /// The channel behind this handle
+            pub fn verif_channel(&self) -> &GenericChannel<MutexType, T, A> {
+                &self.inner.channel
+            }
+        }
+
+        #[cfg(futures_intrusive_verif)]
+        impl<MutexType, T, A> GenericReceiver<MutexType, T, A>
+        where
+            MutexType: RawMutex,
+            A: RingBuf<Item = T>,
+        {
+            /// The channel behind this handle
+            pub fn verif_channel(&self) -> &GenericChannel<MutexType, T, A> {
+                &self.inner.channel
+            }
+        }
+
+        #[cfg(futures_intrusive_verif)]
+        impl<MutexType, T, A> SharedStream<MutexType, T, A>
+        where
+            MutexType: RawMutex,
+            A: RingBuf<Item = T>,
+        {
+            /// The receive future which is currently stored inside the stream
+            pub fn verif_future(
+                &self,
+            ) -> Option<&ChannelReceiveFuture<MutexType, T>> {
+                self.future.as_ref()
+            }
+
+            /// The channel behind this stream
+            pub fn verif_channel(&self) -> &GenericChannel<MutexType, T, A> {
+                &self.receiver.inner.channel
             }
         }
 
